@@ -198,6 +198,7 @@ func runC18(r *mon.Run, replay string) {
 	timed("limits", func() { phaseLimits(r) })
 	timed("dropleak", func() { phaseDropLeak(r) })
 	timed("pinseq", func() { phasePinSeq(r) })
+	timed("longwait", func() { phaseLongWait(r) })
 	timed("stall", func() { phaseStall(r) })
 	timed("caps", func() { phaseCaps(r) })
 	timed("sharedaddr", func() { phaseSharedAddr(r) })
@@ -218,6 +219,7 @@ func runC18(r *mon.Run, replay string) {
 	r.Floor("limit.subnet_drop_bursts", 1)
 	r.Floor("limit.fresh_burst_reached_full_limit", 5)
 	r.Floor("dropleak.final_bursts_served_completely", 3)
+	r.Floor("longwait.rpcs_served_after_waiting_longer_than_rpc_timeout", 4)
 	r.Floor("pinseq.ops", 200)
 	r.Floor("pinseq.handlers_released_individually", 60)
 	r.Floor("pinseq.leave_with_others_running", 20)
@@ -310,6 +312,10 @@ func runReplay(r *mon.Run, path string) {
 			var c SharedAddrCase
 			json.Unmarshal(h.Case, &c)
 			runSharedAddrCase(r, c)
+		case "long-wait":
+			var c LongWaitCase
+			json.Unmarshal(h.Case, &c)
+			runLongWaitCase(r, c)
 		case "pinseq":
 			var c PinSeqCase
 			json.Unmarshal(h.Case, &c)
